@@ -64,6 +64,7 @@ func hashStr(s string) string {
 func doCompile(src []byte, c *wire.Case) (v *libvore.Vore, cr *wire.Compile) {
 	cr = &wire.Compile{}
 	caseStartCPU.Store(cpuMicros())
+	caseStartWall.Store(time.Now().UnixNano())
 	lexReads = 0
 	lexBudget = c.LexBudget
 	if lexBudget == 0 {
@@ -212,7 +213,8 @@ func stepBudget(c *wire.Case) int {
 
 // monitoredRun executes fn (a Run or RunFiles call) under the step monitor.
 func monitoredRun(c *wire.Case, fn func() engine.Matches) (r wire.Run, ms engine.Matches) {
-	caseStartCPU.Store(cpuMicros()) // the CPU guard bounds one library call, not one case
+	caseStartCPU.Store(cpuMicros()) // the guards bound one library call, not one case
+	caseStartWall.Store(time.Now().UnixNano())
 	startSteps(stepBudget(c))
 	func() {
 		defer func() {
@@ -729,6 +731,10 @@ func opSession(c *wire.Case, res *wire.Result) {
 					}()
 					ms := v.RunFiles(paths, parseMode(st.Mode), false)
 					sr.NMatches = len(ms)
+					if st.WantMatches {
+						sr.Matches = convMatches(ms)
+						sr.StringMatches = convMatches(v.Run(string(st.Text)))
+					}
 				}()
 			}
 		}
